@@ -13,7 +13,7 @@ import (
 func init() {
 	register("C08", &propDef{
 		Title: "A finished bundle contains everything that was added or discovered",
-		Rules: []func(*Checker){ruleC08NoDrop, ruleC08Drain, ruleC08Callbacks, ruleC08Manifest, ruleC08SameJoin, ruleC08Lookup, ruleC08Meta, ruleCopiedWhenEmpty("C08.metacopy"), ruleArgOrder("C08.argorder"), ruleTracerNonNil("C08.tracer")},
+		Rules: []func(*Checker){ruleC08NoDrop, ruleC08Drain, ruleC08Callbacks, ruleC08Manifest, ruleC08SameJoin, ruleC08Lookup, ruleC08Meta, ruleCopiedWhenEmpty("C08.metacopy"), ruleArgOrder("C08.argorder"), ruleTracerNonNil("C08.tracer"), aliasRule(ruleC11JoinOrder, "C11.joinorder", "C08.finaladdr", 3)},
 		NotDecided: []string{
 			"transitive closure over arbitrary dependency graphs and the content of fetched files (run-time facts)",
 			"that looked-up paths exist on disk",
@@ -23,6 +23,7 @@ func init() {
 		Title: "A bundle survives being re-opened and archived",
 		Rules: []func(*Checker){ruleC09Fields, ruleC09Archive, ruleChecksum("C09.checksum"), ruleC06ManifestAs("C09.addrs"),
 			ruleRootSymmetric("C09.symmetric"), ruleLinkPrecise("C09.linkprecise"), ruleC09Answers, ruleLocalMemo("C09.localmemo"),
+			aliasRuleFiltered(ruleC02LinkTarget, "C02.linktarget", "C09.linktarget", 1, func(o Oblig) bool { return strings.Contains(o.Key, "Unpack") }),
 			aliasRuleFiltered(ruleC06CanonURL, "C06.canonurl", "C09.canonkey", 1, func(o Oblig) bool { return strings.Contains(o.Key, "canonical") }),
 			aliasRuleFiltered(ruleC13Maps, "C13.maps", "C09.lookup", 3, func(o Oblig) bool { return strings.Contains(o.Key, "sourcebundle.Bundle)") || strings.Contains(o.Key, "sourcebundle.OpenDir/") })},
 		NotDecided: []string{
@@ -1121,6 +1122,47 @@ func ruleC17Dep(c *Checker) {
 		}
 	})
 	c.check(keyOK, R, name, "recorded under the selected version", p.Pos(site.Pos()), "resolvedRegistry key contains the selected version", "the answer is recorded under a different version than the one selected")
+	// ... the version itself, not something computed from it (Comparable() drops build metadata:
+	// 1.0.0+linux and 1.0.0+darwin then share one slot and the first one resolved answers for both)
+	keyExact := true
+	var keyBad token.Pos
+	checkKey := func(k ssa.Value, pos token.Pos) {
+		ld, ok := k.(*ssa.UnOp)
+		if !ok {
+			return
+		}
+		al, ok := ld.X.(*ssa.Alloc)
+		if !ok {
+			return
+		}
+		st, ok := derefType(al.Type()).Underlying().(*types.Struct)
+		if !ok {
+			return
+		}
+		for fi := 0; fi < st.NumFields(); fi++ {
+			if !strings.Contains(strings.ToLower(st.Field(fi).Name()), "version") {
+				continue
+			}
+			for _, w := range fieldWrites(al, fi) {
+				if p.backSlice(w.Val, 0)[sel] && canon(w.Val) != ssa.Value(sel) {
+					keyExact, keyBad = false, pos
+				}
+			}
+		}
+	}
+	eachInstr(fn, func(in ssa.Instruction) {
+		switch x := in.(type) {
+		case *ssa.MapUpdate:
+			if builderMapOf(x.Map) == "resolvedRegistry" || builderMapOf(x.Map) == "packageVersionDeprecations" {
+				checkKey(x.Key, x.Pos())
+			}
+		case *ssa.Lookup:
+			if builderMapOf(x.X) == "resolvedRegistry" {
+				checkKey(x.Index, x.Pos())
+			}
+		}
+	})
+	c.check(keyExact, R, name, "keyed by the selected version as it is", p.Pos(keyBad), "the key's version field is the NewestInSet result itself", "the per-version record is keyed by something computed from the selected version, not by the version: versions that differ only in what the computation drops (build metadata) share one record, so which of them is fetched depends on which was resolved first")
 	// deprecation association (in the resolver or a private helper of it)
 	depOK := false
 	sameUsed := false
@@ -1579,6 +1621,22 @@ func reverseDetail(c *Checker, R string, fn *ssa.Function, ranges []mapRange) {
 		return isC && k == "." && canon(bo.X) == canon(cleaned)
 	})
 	notRoot := append(neT, eqF...)
+	// the sub-path validity test looks at what follows the first segment, not at the directory name too
+	for _, ci := range callsIn(fn) {
+		g := ci.Common().StaticCallee()
+		if g == nil || g.Name() != "ValidSubPath" {
+			continue
+		}
+		a := canon(ci.Common().Args[0])
+		afterCut := false
+		if ex, ok := a.(*ssa.Extract); ok && ex.Tuple == ssa.Value(cut) && ex.Index == 1 {
+			afterCut = true
+		}
+		if sl, ok := a.(*ssa.Slice); ok && p.backSlice(sl.Low, 0)[cut] {
+			afterCut = true
+		}
+		c.check(afterCut, R, name, "sub-path validity tested on the remainder", p.Pos(ci.Pos()), "ValidSubPath(what follows the first separator)", "the sub-path validity test is applied to the whole path from the root, package directory name included: a directory name the manifest reader accepts but a sub-path cannot contain (a question mark) makes every path below that package be refused, although the forward lookup returns them")
+	}
 	// the found flag
 	for _, mr := range ranges {
 		if mapDesc(mr.Range.X) != "remotePackageDirs" || mr.Fn != fn {
